@@ -16,6 +16,7 @@ NOTE = ("Trusted: bitarray C extension (replaced by a model that is differential
 
 # property -> (technique, design section, extra note) ; None = not yet claimed
 CLAIMED = {
+    'C16': ("symbolic execution (CrossHair/z3) of &,|,^,~,<<,>> and in-place forms against bit-vector operators", "DESIGN.md 5/C16", ""),
     'C01': ("symbolic execution (CrossHair/z3) of indexing, slicing, + and * against a sequence oracle", "DESIGN.md 5/C01", ""),
 }
 
